@@ -139,6 +139,232 @@ theorem draw_step (a : AState) (o : Op) (h : isDraw o = true) : DrawStep a (step
   case eraserect r => exact (paint_draw a _ _ : DrawStep a (eraserect a r))
   case skiprect r => exact (paint_draw a _ _ : DrawStep a (skiprect a r))
 
+/-! ### Which cells an operation covers (user coordinates), and the cells it does not cover -/
+
+open Tickit.Gen.RBWidth in
+/-- The cells (in user coordinates, before translation) an operation draws on when nothing is clipped or
+    masked.  Cursor-relative operations read the cursor of `a`. -/
+def opCovers (a : AState) : Op → Int → Int → Bool
+  | .textAt l c s => fun l' c' => match Utf8.stringColumns s with
+    | some n => inRun l c n l' c'
+    | none => false
+  | .text s => fun l' c' => match a.vc, Utf8.stringColumns s with
+    | some (l, c), some n => inRun l c n l' c'
+    | _, _ => false
+  | .eraseAt l c n => inRun l c n
+  | .skipAt l c n => inRun l c n
+  | .erase n => fun l' c' => match a.vc with
+    | some (l, c) => inRun l c n l' c'
+    | none => false
+  | .skip n => fun l' c' => match a.vc with
+    | some (l, c) => inRun l c n l' c'
+    | none => false
+  | .eraseTo col => fun l' c' => match a.vc with
+    | some (l, c) => inRun l c (col - c) l' c'
+    | none => false
+  | .skipTo col => fun l' c' => match a.vc with
+    | some (l, c) => inRun l c (col - c) l' c'
+    | none => false
+  | .charAt l c _ => inRun l c 1
+  | .char _ => fun l' c' => match a.vc with
+    | some (l, c) => inRun l c 1 l' c'
+    | none => false
+  | .hlineAt l c1 c2 _ _ => fun l' c' => decide (l' = l) && (decide (c' = c1) || decide (c' = c2) || (decide (c1 < c') && decide (c' < c2)))
+  | .vlineAt l1 l2 c _ _ => fun l' c' => decide (c' = c) && (decide (l' = l1) || decide (l' = l2) || (decide (l1 < l') && decide (l' < l2)))
+  | .clear => (⟨0, 0, a.lines, a.cols⟩ : Rect).memb
+  | .eraserect r => r.memb
+  | .skiprect r => r.memb
+  | _ => fun _ _ => false
+
+/-- `o` writes cell `(L, C)` in state `a`: it covers it (after translation) while it is inside the clip and
+    unmasked.  (`reset` rewrites everything.) -/
+def Writes (a : AState) (o : Op) (L C : Int) : Prop :=
+  o = .reset ∨ (opCovers a o (L - a.xlLine) (C - a.xlCol) = true ∧ a.writable L C = true)
+
+theorem paint_not_covered (a : AState) (cov : Int → Int → Bool) (w : Int → Int → Content → Content) (L C : Int)
+    (h : ¬ (cov (L - a.xlLine) (C - a.xlCol) = true ∧ a.writable L C = true)) : (paint a cov w).content L C = a.content L C := by
+  show (if cov _ _ && a.writable L C then _ else _) = _
+  rw [if_neg]
+  intro x; rw [Bool.and_eq_true] at x; exact h x
+
+theorem lineLoop_not_covered (cellAt : Int → Int × Int) (bits : Nat) (L C : Int) (n : Nat) :
+    ∀ (a : AState) (from_ : Int),
+      (∀ k, from_ ≤ k → k < from_ + n → ¬ ((cellAt k).1 = L - a.xlLine ∧ (cellAt k).2 = C - a.xlCol)) →
+      (lineLoop cellAt bits a from_ n).content L C = a.content L C := by
+  induction n with
+  | zero => intro a _ _; rfl
+  | succ n ih =>
+    intro a from_ h
+    unfold lineLoop
+    rw [ih (linecell a (cellAt from_).1 (cellAt from_).2 bits) (from_ + 1) (fun k a1 a2 => h k (by omega) (by omega))]
+    apply paint_not_covered
+    intro x
+    have := (inRun_iff _ _ _ _ _).1 x.1
+    exact h from_ (by omega) (by omega) ⟨this.1.symm, by omega⟩
+
+/-- **An operation leaves every cell it does not write exactly as it was.** -/
+theorem not_writes_unchanged (a : AState) (o : Op) (L C : Int) (h : ¬ Writes a o L C) :
+    (step a o).content L C = a.content L C := by
+  have hr : o ≠ .reset := fun x => h (Or.inl x)
+  have hc : ¬ (opCovers a o (L - a.xlLine) (C - a.xlCol) = true ∧ a.writable L C = true) := fun x => h (Or.inr x)
+  cases o with
+  | reset => exact absurd rfl hr
+  | goto l c => rfl
+  | ungoto => rfl
+  | translate d r => rfl
+  | clip r => rfl
+  | mask r => rfl
+  | setpen p => show (setpen a p).content L C = _; unfold setpen; cases a.stack <;> rfl
+  | save => rfl
+  | savepen => rfl
+  | restore => show (restore a).content L C = _; unfold restore; cases a.stack with
+    | nil => rfl
+    | cons g rest => simp only; split <;> rfl
+  | eraseAt l c n => exact paint_not_covered a (inRun l c n) (fun _ _ _ => .erase a.pen) L C hc
+  | skipAt l c n => exact paint_not_covered a (inRun l c n) (fun _ _ _ => .skip) L C hc
+  | charAt l c cp => exact paint_not_covered a (inRun l c 1) (fun _ _ _ => .char a.pen cp) L C hc
+  | clear => exact paint_not_covered a (⟨0, 0, a.lines, a.cols⟩ : Rect).memb (fun _ _ _ => .erase a.pen) L C hc
+  | eraserect r => exact paint_not_covered a r.memb (fun _ _ _ => .erase a.pen) L C hc
+  | skiprect r => exact paint_not_covered a r.memb (fun _ _ _ => .skip) L C hc
+  | textAt l c s =>
+    show (textAt a l c s).content L C = _
+    unfold textAt
+    simp only [opCovers] at hc
+    cases hs : Utf8.stringColumns s with
+    | none => rfl
+    | some n => rw [hs] at hc; exact paint_not_covered a _ _ L C hc
+  | text s =>
+    show (text a s).content L C = _
+    unfold text atCursor
+    simp only [opCovers] at hc
+    cases hv : a.vc with
+    | none => rfl
+    | some p =>
+      obtain ⟨l, c⟩ := p
+      rw [hv] at hc
+      show (textAt a l c s).content L C = _
+      unfold textAt
+      cases hs : Utf8.stringColumns s with
+      | none => rfl
+      | some n => rw [hs] at hc; exact paint_not_covered a _ _ L C hc
+  | erase n =>
+    show (erase a n).content L C = _
+    unfold erase atCursor
+    simp only [opCovers] at hc
+    cases hv : a.vc with
+    | none => rfl
+    | some p =>
+      obtain ⟨l, c⟩ := p; rw [hv] at hc; simp only at hc
+      show (eraseAt a l c n).content L C = _
+      exact paint_not_covered a (inRun l c _) _ L C hc
+  | skip n =>
+    show (skip a n).content L C = _
+    unfold skip atCursor
+    simp only [opCovers] at hc
+    cases hv : a.vc with
+    | none => rfl
+    | some p =>
+      obtain ⟨l, c⟩ := p; rw [hv] at hc; simp only at hc
+      show (skipAt a l c n).content L C = _
+      exact paint_not_covered a (inRun l c _) _ L C hc
+  | eraseTo col =>
+    show (eraseTo a col).content L C = _
+    unfold eraseTo
+    simp only [opCovers] at hc
+    cases hv : a.vc with
+    | none => rfl
+    | some p =>
+      obtain ⟨l, c⟩ := p; rw [hv] at hc; simp only at hc
+      show (eraseAt a l c (col - c)).content L C = _
+      exact paint_not_covered a (inRun l c _) _ L C hc
+  | skipTo col =>
+    show (skipTo a col).content L C = _
+    unfold skipTo
+    simp only [opCovers] at hc
+    cases hv : a.vc with
+    | none => rfl
+    | some p =>
+      obtain ⟨l, c⟩ := p; rw [hv] at hc; simp only at hc
+      show (skipAt a l c (col - c)).content L C = _
+      exact paint_not_covered a (inRun l c _) _ L C hc
+  | char cp =>
+    show (char a cp).content L C = _
+    unfold char atCursor
+    simp only [opCovers] at hc
+    cases hv : a.vc with
+    | none => rfl
+    | some p =>
+      obtain ⟨l, c⟩ := p; rw [hv] at hc; simp only at hc
+      show (charAt a l c cp).content L C = _
+      exact paint_not_covered a (inRun l c _) _ L C hc
+  | hlineAt l c1 c2 st caps =>
+    show (hlineAt a l c1 c2 st caps).content L C = _
+    by_cases hw : a.writable L C = true
+    · have hcov : ¬ ((L - a.xlLine = l) ∧ ((C - a.xlCol = c1 ∨ C - a.xlCol = c2) ∨ (c1 < C - a.xlCol ∧ C - a.xlCol < c2))) := by
+        intro x; apply hc; refine ⟨?_, hw⟩
+        simp only [opCovers, Bool.and_eq_true, Bool.or_eq_true, decide_eq_true_eq]; exact x
+      have key : ∀ (X : AState), X.xlLine = a.xlLine → X.xlCol = a.xlCol → ∀ (col : Int) (bits : Nat),
+          ¬ (L - a.xlLine = l ∧ C - a.xlCol = col) → (linecell X l col bits).content L C = X.content L C := by
+        intro X e1 e2 col bits hn
+        apply paint_not_covered
+        intro x
+        have := (inRun_iff _ _ _ _ _).1 x.1
+        rw [e1, e2] at this
+        exact hn ⟨this.1, by omega⟩
+      unfold hlineAt
+      simp only
+      generalize (st <<< Gen.RBWidth.c_EAST_SHIFT ||| if caps &&& Gen.RBWidth.c_TICKIT_LINECAP_START ≠ 0 then st <<< Gen.RBWidth.c_WEST_SHIFT else 0) = b1
+      generalize (st <<< Gen.RBWidth.c_EAST_SHIFT ||| st <<< Gen.RBWidth.c_WEST_SHIFT) = b2
+      generalize ((if caps &&& Gen.RBWidth.c_TICKIT_LINECAP_END ≠ 0 then st <<< Gen.RBWidth.c_EAST_SHIFT else 0) ||| st <<< Gen.RBWidth.c_WEST_SHIFT) = b3
+      have f := (lineLoop_draw (fun col => (l, col)) b2 (c2 - 1 - c1).toNat (linecell a l c1 b1) (c1 + 1)).frame
+      have e1 : (linecell a l c1 b1).xlCol = a.xlCol := rfl
+      have e2 : (linecell a l c1 b1).xlLine = a.xlLine := rfl
+      rw [key _ f.xlLine f.xlCol c2 b3 (fun x => hcov ⟨x.1, Or.inl (Or.inr x.2)⟩),
+          lineLoop_not_covered _ _ L C _ _ _ (fun k k1 k2 x => hcov ⟨by have := x.1; simp only at this; omega, Or.inr (by have := x.2; simp only at this; omega)⟩),
+          key a rfl rfl c1 b1 (fun x => hcov ⟨x.1, Or.inl (Or.inl x.2)⟩)]
+    · exact (draw_step a (.hlineAt l c1 c2 st caps) rfl).confined L C (by cases h' : a.writable L C <;> simp_all)
+  | vlineAt l1 l2 c st caps =>
+    show (vlineAt a l1 l2 c st caps).content L C = _
+    by_cases hw : a.writable L C = true
+    · have hcov : ¬ ((C - a.xlCol = c) ∧ ((L - a.xlLine = l1 ∨ L - a.xlLine = l2) ∨ (l1 < L - a.xlLine ∧ L - a.xlLine < l2))) := by
+        intro x; apply hc; refine ⟨?_, hw⟩
+        simp only [opCovers, Bool.and_eq_true, Bool.or_eq_true, decide_eq_true_eq]; exact x
+      have key : ∀ (X : AState), X.xlLine = a.xlLine → X.xlCol = a.xlCol → ∀ (line : Int) (bits : Nat),
+          ¬ (L - a.xlLine = line ∧ C - a.xlCol = c) → (linecell X line c bits).content L C = X.content L C := by
+        intro X e1 e2 line bits hn
+        apply paint_not_covered
+        intro x
+        have := (inRun_iff _ _ _ _ _).1 x.1
+        rw [e1, e2] at this
+        exact hn ⟨this.1, by omega⟩
+      unfold vlineAt
+      simp only
+      generalize (st <<< Gen.RBWidth.c_SOUTH_SHIFT ||| if caps &&& Gen.RBWidth.c_TICKIT_LINECAP_START ≠ 0 then st <<< Gen.RBWidth.c_NORTH_SHIFT else 0) = b1
+      generalize (st <<< Gen.RBWidth.c_SOUTH_SHIFT ||| st <<< Gen.RBWidth.c_NORTH_SHIFT) = b2
+      generalize ((if caps &&& Gen.RBWidth.c_TICKIT_LINECAP_END ≠ 0 then st <<< Gen.RBWidth.c_SOUTH_SHIFT else 0) ||| st <<< Gen.RBWidth.c_NORTH_SHIFT) = b3
+      have f := (lineLoop_draw (fun line => (line, c)) b2 (l2 - 1 - l1).toNat (linecell a l1 c b1) (l1 + 1)).frame
+      have e1 : (linecell a l1 c b1).xlCol = a.xlCol := rfl
+      have e2 : (linecell a l1 c b1).xlLine = a.xlLine := rfl
+      rw [key _ f.xlLine f.xlCol l2 b3 (fun x => hcov ⟨x.2, Or.inl (Or.inr x.1)⟩),
+          lineLoop_not_covered _ _ L C _ _ _ (fun k k1 k2 x => hcov ⟨by have := x.2; simp only at this; omega, Or.inr (by have := x.1; simp only at this; omega)⟩),
+          key a rfl rfl l1 b1 (fun x => hcov ⟨x.2, Or.inl (Or.inl x.1)⟩)]
+    · exact (draw_step a (.vlineAt l1 l2 c st caps) rfl).confined L C (by cases h' : a.writable L C <;> simp_all)
+
+/-- No operation of the program writes the cell. -/
+def NeverWritten : AState → List Op → Int → Int → Prop
+  | _, [], _, _ => True
+  | a, o :: r, L, C => ¬ Writes a o L C ∧ NeverWritten (step a o) r L C
+
+theorem neverWritten_unchanged : ∀ (p : List Op) (a : AState) (L C : Int), NeverWritten a p L C →
+    (run a p).content L C = a.content L C := by
+  intro p
+  induction p with
+  | nil => intro a L C _; rfl
+  | cons o r ih =>
+    intro a L C h
+    show (run (step a o) r).content L C = _
+    rw [ih (step a o) L C h.2, not_writes_unchanged a o L C h.1]
+
 /-! ### Line segments accumulate, in any order -/
 
 /-- The mask of a line cell after a segment is drawn into it: OR of what was there and the new bits. -/
